@@ -95,6 +95,39 @@ def shuffle_law(pre, post, pair):
     return None
 
 
+def for_model(x, pre):
+    """Markers -> plain data as the documentation sees them (pre = (nodes, edges, net) before the call)."""
+    if isinstance(x, ops.OneShot):
+        return list(x)
+    if isinstance(x, ops.LiveView):
+        nodes, edges, _ = pre
+        if x.kind == "nodes":
+            ids = list(nodes)
+            if x.filt:
+                deg = {n: sum(1 for m, _ in edges.values() if n in _flat(m)) for n in ids}
+                ids = [n for n in ids if _cmp(deg[n], x.filt[1], x.filt[2])]
+        else:
+            ids = list(edges)
+            if x.filt:
+                ids = [e for e in ids if _cmp(len(_flat(edges[e][0])), x.filt[1], x.filt[2])]
+        return ids
+    if isinstance(x, list):
+        return [for_model(y, pre) for y in x]
+    if isinstance(x, tuple):
+        return tuple(for_model(y, pre) for y in x)
+    if isinstance(x, dict):
+        return {k: for_model(v, pre) for k, v in x.items()}
+    return x
+
+
+def _flat(m):
+    return (m[0] | m[1]) if isinstance(m, tuple) else m
+
+
+def _cmp(a, b, mode):
+    return {"eq": a == b, "leq": a <= b, "geq": a >= b}[mode]
+
+
 def model_kwargs(op):
     kw = dict(op.kwargs)
     fmt = [int(t[3:]) for t in op.tags if t.startswith("fmt")]
@@ -150,7 +183,7 @@ def run_case(mon, kind, idx, rng):
         mon.ev()
         mon.note("compared-steps")
         try:
-            getattr(m2, "op_" + op.name.strip("_"))(*copy.deepcopy(op.args), **copy.deepcopy(model_kwargs(op)))
+            getattr(m2, "op_" + op.name.strip("_"))(*copy.deepcopy(for_model(op.args, pre)), **copy.deepcopy(for_model(model_kwargs(op), pre)))
             expect = ("ok", [m2.state()])
             for eid, alt in getattr(m2, "attr_alts", ()):
                 a = m2.clone()
@@ -161,7 +194,7 @@ def run_case(mon, kind, idx, rng):
                 m3.new_pool = list(pool0)
                 m3.skip_empty = True
                 try:
-                    getattr(m3, "op_" + op.name.strip("_"))(*copy.deepcopy(op.args), **copy.deepcopy(model_kwargs(op)))
+                    getattr(m3, "op_" + op.name.strip("_"))(*copy.deepcopy(for_model(op.args, pre)), **copy.deepcopy(for_model(model_kwargs(op), pre)))
                     expect[1].append(m3.state())
                 except (M.ModelError, M.Undefined):
                     pass
